@@ -466,6 +466,35 @@ def t_scrollback(task, ctx: Ctx):
                     ctx.violation("no-raise", f"C15/no-raise/scrolled-view/{exc_site(e)}", case, repr(e))
                 if off:
                     ctx.distinct("nontrivial", ("sb", w, h, k, off))
+        # resizes while the view is scrolled back, and the cursor across a resize
+        for up_lines in range(0, screen_top + 2):
+            for (nw, nh) in ((w, h + 1), (w, h + 3), (w + 2, h), (max(1, w - 1), h), (w, max(1, h - 1)), (w + 1, h + 2)):
+                ctx.count("evaluations")
+                wid2 = StubWidget()
+                t2 = TermCanvas(w, h, wid2)
+                for i in range(k):
+                    t2.addstr(f"{i % 10}".encode() * min(w, 2) + b"\r\n")
+                t2.addstr(b"x" * min(w - 1, 1))
+                cur0 = t2.term_cursor
+                case = dict(case0, up=up_lines, resize=(nw, nh))
+                try:
+                    if up_lines:
+                        t2.scroll_buffer(up=True, lines=up_lines)
+                    t2.resize(nw, nh)
+                    rows = list(t2.content())
+                except Exception as e:
+                    ctx.violation("no-raise", f"C15/no-raise/resize-scrolled/{exc_site(e)}", case, repr(e))
+                    continue
+                if len(rows) != nh or any(len(r) != nw for r in rows):
+                    ctx.violation("content-shape", "C15/content-shape/resize" + ("/view-scrolled" if up_lines else ""), case,
+                                  f"after resize to {nw}x{nh} content() yields {len(rows)} rows x {sorted({len(r) for r in rows})} cells")
+                if len(t2.term) != nh or any(len(r) != nw for r in t2.term):
+                    ctx.violation("grid-shape", "C15/grid-shape/resize", case, f"grid {len(t2.term)} rows after resize to {nw}x{nh}")
+                # a width-only resize does not move lines: the cursor stays on its row
+                if nh == h and not up_lines:
+                    cx, cy = t2.term_cursor
+                    if cy != cur0[1] or cx != min(cur0[0], nw - 1):
+                        ctx.violation("matches-vt100", "C15/matches-vt100/resize-width/cursor", case, f"cursor {cur0} before a width-only resize to {nw}x{nh}, {t2.term_cursor} after")
     ctx.sample({"part": 3, "w": w, "h": h, "kmax": kmax})
 
 
